@@ -8,7 +8,7 @@
      show4 / show6          dotted-quad text / RFC 5952 text of an address
      expand4 / expand6      the pattern lists of SigmaCIDRExpression.expand() *)
 From Coq Require Import NArith List Bool.
-From PS Require Import Base.Chars Base.Outcome Model.SString Spec.Items Model.Cidr Spec.Net Proofs.CidrP.
+From PS Require Import Base.Chars Base.Outcome Model.SString Spec.Items Model.Cidr Spec.Net Proofs.CidrP Proofs.Cidr6P.
 Import ListNotations.
 Open Scope N_scope.
 
@@ -48,9 +48,32 @@ Theorem C18_pattern_range4_correct :
 Proof. exact pattern_range4_ok. Qed.
 Print Assumptions C18_pattern_range4_correct.
 
+(* soundness of the oracle that decides IPv4 exactness on the implementation's output in the
+   correspondence check (bit 2): if it accepts a pattern list for a network, every address is matched
+   by exactly one pattern when it lies in the network and by none otherwise *)
+Theorem C18_exact_cover4_sound :
+  forall base len pats, exact_cover4 base len pats = true ->
+    forall a, a < 2 ^ 32 ->
+      length (filter (fun p => pat_matches p (show4 a)) pats)
+      = if in_netb 32 base len a then 1%nat else 0%nat.
+Proof. exact exact_cover4_sound. Qed.
+Print Assumptions C18_exact_cover4_sound.
+
 (* FULL STATEMENT for IPv6 (false of the faithful model, see the refutation below):
-     forall a len x pats, wf_net 128 a len -> in_net 128 a len x ->
-       expand6 a len None = Ok pats -> covered pats (show6 x) = true *)
+     forall a len x, wf_net 128 a len -> in_net 128 a len x ->
+       exists pats, expand6 a len None = Ok pats /\ covered pats (show6 x) = true
+   PROVED PART: only the prefix lengths 0 and 128 (pattern "*", resp. the address text itself, which
+   as a pattern denotes exactly itself because RFC 5952 text has no wildcard characters).
+   NOT PROVED (modelled and checked by the correspondence on sampled addresses only): coverage for
+   0 < len < 128 on the domain where every completely fixed 16-bit group of the nibble-aligned
+   subnets is non-zero (Run.C18run.stable6). The missing lemma is: for lo <= x <= hi in such a subnet
+   the longest common prefix of show6 lo and show6 hi is a prefix of show6 x. *)
+Theorem C18_v6_cover_partial :
+  forall a len x, wf_net 128 a len -> len = 0 \/ len = 128 -> in_net 128 a len x ->
+    exists pats, expand6 a len None = Ok pats /\ covered pats (show6 x) = true.
+Proof. exact v6_cover_trivial. Qed.
+Print Assumptions C18_v6_cover_partial.
+
 Theorem C18_v6_cover_refuted :
   exists a len x pats,
     wf_net 128 a len /\ in_net 128 a len x /\
